@@ -14,7 +14,7 @@
   The composition theorem `parEval_perm_seqEval` covers jobs (arbitrary DAGs: fan-out = several
   references to one node, fan-in = `merge`, several sinks) built from: sources (`iter`, `par`),
   `map` / `filter` / `flat_map`, `shuffle`, `replication`, `repartition_by`, `group_by`, keyed
-  `map` / `filter` / `fold`, `unkey`, `drop_key`, global `fold`, `fold_assoc` (two-phase), `merge`,
+  `map` / `filter` / `fold`, `unkey`, `drop_key`, global `fold`, `reduce`, `fold_assoc` (two-phase), `merge`,
   `route`, sinks.  `OrderInsensitive` (= `orderInsensitive job = true`) EXCLUDES:
     * count windows and `zip` (order sensitive: they observe the arrival order, which is schedule
       dependent after any fan-in; the generator only uses them on single-producer paths),
@@ -22,8 +22,8 @@
       has one replica) and the keyed join (needs co-partitioning of two streams),
     * `replay` / `iterate` (evaluated by `seqEval`, exercised end to end; no parallel theorem),
     * stages whose stage law is proved below but which are not yet wired into the composition proof:
-      `reduce*`, `group_by_fold/reduce/sum/count` (`keyed_twoPhase`), joins (`join_broadcastRight`),
-      `broadcast` (`route_conserves_broadcast`).
+      `reduce_assoc`, keyed `reduce`, `group_by_fold/reduce/sum/count` (`keyed_twoPhase`), joins (`join_copartitioned`,
+      `join_broadcastRight`), `broadcast` (`route_conserves_broadcast`).
   Non-commutative user folds are outside the function library altogether (every `Agg` is
   right-commutative: `agg_rightComm`).
 
@@ -123,6 +123,15 @@ theorem join_broadcastRight (v : JVar) (hv : v ≠ .outer) (k1 k2 : V → V) (x 
   · intro a b
     cases v <;> simp [joinS] at hv ⊢
 
+/-- **join_copartitioned**: if both inputs are partitioned by the same hash of their join keys
+    (`CoPart h key n 0 d`: every element of replica `j` has `h (key e) % n = j`) over equally many
+    replicas, the union of the per-replica relational joins (inner, left or outer) is the relational
+    join of the whole inputs. -/
+theorem join_copartitioned (h : V → Nat) (v : JVar) (k1 k2 : V → V) (n : Nat) (x y : D)
+    (hl : x.length = y.length) (hx : CoPart h k1 n 0 x) (hy : CoPart h k2 n 0 y) :
+    (zipWith (joinS v k1 k2) x y).flatten.Perm (joinS v k1 k2 x.flatten y.flatten) :=
+  join_copart h v k1 k2 n 0 x y hl hx hy
+
 /-- **merge_union**: a binary forward connection followed by any interleaving delivers the union. -/
 theorem merge_union (c : Nat → Nat) (x y : D) :
     ((zipAppend x y).map (permBy c)).flatten.Perm (x.flatten ++ y.flatten) :=
@@ -177,6 +186,14 @@ example : seqEval exampleJob =
 example : parEval ⟨3⟩ exampleOrc exampleJob =
     [(8, [V.pair (.int 1) (.int 12), V.pair (.int 0) (.int 18), .int 8]),
      (9, [.int 6, .int 4, .int 7, .int 5, .int 8])] := by decide
+
+/-- non-vacuity of `join_copartitioned`: two replicas, keys 0/2 on replica 0 and 1/3 on replica 1 -/
+example : CoPart (fun v => v.proj.toNat) id 2 0 [[.int 0, .int 2], [.int 1, .int 3]] := by
+  intro j l hj p hp
+  match j, hj with
+  | 0, hj => simp at hj; subst hj; simp at hp; rcases hp with rfl | rfl <;> decide
+  | 1, hj => simp at hj; subst hj; simp at hp; rcases hp with rfl | rfl <;> decide
+  | j + 2, hj => simp at hj
 
 example : Coloc (fun v => v.proj.toNat) [[V.pair (.int 0) (.int 5), V.pair (.int 2) (.int 1)], [V.pair (.int 1) (.int 7)]] := by
   intro j l hj p hp
